@@ -10,17 +10,21 @@ Oracle (implementation, every check with an executable idiom): each idiom is wra
 linted by refurb, the suggested replacement is spliced in at the reported span (harness/rewrite.py),
 both versions are executed over a value sweep for the declared operand types, and value (with type),
 exception-or-not, final argument state and printed output must agree.
+Checks whose advice is schematic or rewrites statements are handled by harness/props/c01_stmt.py (hand-written rewrites
+tied to the message, file idioms in a scratch directory, the Lean statement rules), called at the end of run().
 """
 
 from __future__ import annotations
 
 import itertools
 import json
+import re
 import math
 from pathlib import Path
 from typing import Any
 
 from .. import core, extract, rewrite
+from . import c01_stmt
 
 GENERATED: list[str] = ["Catalogue", "C01Tables"]
 
@@ -316,9 +320,12 @@ IDIOMS: list[tuple[int, list[tuple[str, str]], str, dict[str, Any]]] = [
 CAVEATS: dict[int, tuple[str, Any]] = {
     116: ("let you work with negative", lambda args, body: any(isinstance(a, int) and not isinstance(a, bool) and a < 0 for a in args)),
     179: ("returns an iterator, which means you might", None),
-    106: ("", None),
-    120: ("", None),
+    106: ("this only works if the tabs are at the start of the string", c01_stmt.tab_after_text),
     147: ("it is not a drop-in replacement", None),
+    151: ("meaning it is not a drop-in replacement", None),
+    166: ("there is no way for Refurb to detect whether the prefixes that are being stripped are valid Python int prefixes", None),
+    176: ("it is preferred to use aware datetimes to represent times in UTC", None),
+    189: ("checks for `dict`, `list`, and `str` types will fail when using the corresponding User class", None),
 }
 
 
@@ -377,17 +384,118 @@ def product_sample(rng, pools: list[list[Any]], cap: int) -> list[tuple[Any, ...
     return out
 
 
-def build_module() -> tuple[str, list[dict[str, Any]]]:
+def near_misses(params: list[tuple[str, str]], body: str, rng, k: int) -> list[str]:
+    """single-edit neighbours of an idiom (another comparison operator, and<->or, swapped operands, a dropped `not`, another
+    constant, another parameter of the same type, a dropped/doubled argument).  Today most of them are NOT diagnosed; a check
+    that starts to fire on one of them is judged like any other diagnostic: its rewrite must preserve behaviour."""
+    import ast
+    import copy
+
+    try:
+        tree = ast.parse(body)
+    except SyntaxError:
+        return []
+    sites: list[tuple[int, str]] = []
+    nodes = list(ast.walk(tree))
+    same_type: dict[str, list[str]] = {}
+    for n, a in params:
+        same_type.setdefault(a, []).append(n)
+    cmps = [ast.Eq, ast.NotEq, ast.Is, ast.IsNot, ast.Lt, ast.LtE, ast.Gt, ast.GtE, ast.In, ast.NotIn]
+    for idx, n in enumerate(nodes):
+        if isinstance(n, ast.Compare):
+            sites += [(idx, f"cmp{j}:{c.__name__}") for j in range(len(n.ops)) for c in cmps if not isinstance(n.ops[j], c)]
+            sites.append((idx, "swap"))
+        elif isinstance(n, ast.BoolOp):
+            sites += [(idx, "boolop"), (idx, "swap")]
+        elif isinstance(n, ast.BinOp):
+            sites.append((idx, "swap"))
+        elif isinstance(n, ast.UnaryOp) and isinstance(n.op, ast.Not):
+            sites.append((idx, "dropnot"))
+        elif isinstance(n, ast.Constant) and not isinstance(n.value, (bytes, type(...))):
+            sites.append((idx, "const"))
+        elif isinstance(n, ast.Name) and isinstance(n.ctx, ast.Load):
+            for a, ns in same_type.items():
+                if n.id in ns and len(ns) > 1:
+                    sites.append((idx, "name"))
+        elif isinstance(n, ast.Call) and (n.args or n.keywords):
+            sites += [(idx, "droparg"), (idx, "duparg")]
+        elif isinstance(n, ast.IfExp):
+            sites.append((idx, "swap"))
+    rng.shuffle(sites)
+    out: list[str] = []
+    for idx, kind in sites:
+        if len(out) >= k:
+            break
+        t = copy.deepcopy(tree)
+        n = list(ast.walk(t))[idx]
+        if kind.startswith("cmp"):
+            j, cname = kind[3:].split(":")
+            n.ops[int(j)] = getattr(ast, cname)()
+        elif kind == "swap":
+            if isinstance(n, ast.Compare):
+                if len(n.comparators) != 1:
+                    continue
+                n.left, n.comparators[0] = n.comparators[0], n.left
+            elif isinstance(n, ast.BoolOp):
+                n.values = n.values[::-1]
+            elif isinstance(n, ast.BinOp):
+                n.left, n.right = n.right, n.left
+            else:
+                n.body, n.orelse = n.orelse, n.body
+        elif kind == "boolop":
+            n.op = ast.Or() if isinstance(n.op, ast.And) else ast.And()
+        elif kind == "dropnot":
+            n.op = ast.UAdd() if False else n.op
+            parent = next(pn for pn in ast.walk(t) if any(c is n for c in ast.iter_child_nodes(pn)))
+            for f, v in ast.iter_fields(parent):
+                if v is n:
+                    setattr(parent, f, n.operand)
+                elif isinstance(v, list) and n in v:
+                    v[v.index(n)] = n.operand
+        elif kind == "const":
+            v = n.value
+            n.value = (not v) if isinstance(v, bool) else (0 if v is None else ((1 if v == 0 else (v + 1 if rng.random() < 0.5 else 0)) if isinstance(v, (int, float)) else (("" if v else "a") if isinstance(v, str) else v)))
+        elif kind == "name":
+            others = [x for a, ns in same_type.items() if n.id in ns for x in ns if x != n.id]
+            n.id = rng.choice(others)
+        elif kind == "droparg":
+            (n.keywords if n.keywords and (not n.args or rng.random() < 0.5) else n.args).pop()
+        elif kind == "duparg":
+            if n.args and not isinstance(n.args[-1], ast.Starred):
+                n.args.append(copy.deepcopy(n.args[-1]))
+            else:
+                continue
+        try:
+            text = ast.unparse(ast.fix_missing_locations(t))
+            compile("def _f():\n" + "\n".join("    " + l for l in text.split("\n")), "<nm>", "exec")
+        except Exception:  # noqa: BLE001
+            continue
+        if text != ast.unparse(tree) and text not in out:
+            out.append(text)
+    return out
+
+
+def build_module(rng=None, per_idiom: int = 0) -> tuple[str, list[dict[str, Any]]]:
     lines = PREAMBLE.split("\n")
     cases = []
-    for i, (code, params, body, opts) in enumerate(IDIOMS):
+    idioms = [(c, p, b, o, False) for c, p, b, o in IDIOMS]
+    if rng is not None and per_idiom:
+        seen = {b for _, _, b, _ in IDIOMS}
+        for c, p, b, o in IDIOMS:
+            if "return" not in b.split("\n")[0] and "\n" in b:
+                continue  # statement idioms whose result is not the first line's value: keep the originals only
+            for nb in near_misses(p, b, rng, per_idiom):
+                if nb not in seen:
+                    seen.add(nb)
+                    idioms.append((c, p, nb, o, True))
+    for i, (code, params, body, opts, nm) in enumerate(idioms):
         sig = ", ".join(f"{n}: {a}" for n, a in params)
         start = len(lines) + 1
         lines.append(f"def case_{i}({sig}):")
         for bl in body.split("\n"):
             lines.append("    " + bl)
         lines.append("")
-        cases.append({"i": i, "code": code, "params": params, "body": body, "opts": opts, "first": start, "last": len(lines) - 1})
+        cases.append({"i": i, "code": code, "params": params, "body": body, "opts": opts, "first": start, "last": len(lines) - 1, "nm": nm})
     return "\n".join(lines) + "\n", cases
 
 
@@ -405,7 +513,11 @@ def run(ctx) -> None:
     for code, (sentence, _) in CAVEATS.items():
         if sentence and code in rows and sentence not in " ".join(rows[code]["doc"].split()):
             res.disagreements.append({"where": "caveat-table", "reason": f"FURB{code}'s docstring no longer contains the caveat {sentence!r}: it re-enters the claim"})
-    src, cases = build_module()
+    import warnings
+
+    warnings.simplefilter("ignore", SyntaxWarning)  # near-miss idioms such as `x is 0`
+    src, cases = build_module(ctx.rng("c01-near-miss"), 10 if ctx.quick else 40)
+    res.bump("near_miss_functions", sum(1 for c in cases if c["nm"]))
     ns: dict[str, Any] = {"__name__": "case_module"}
     exec(compile(src, "<cases>", "exec"), ns)  # noqa: S102  (only to build the pools of user-class values)
     foreign = {k: [eval(e, ns) for e in v] for k, v in FOREIGN.items()}  # noqa: S307
@@ -413,6 +525,13 @@ def run(ctx) -> None:
         (d / "cases.py").write_text(src)
         (d / "pyproject.toml").write_text("")
         diags = rewrite.lint_with_spans(d, ["cases.py", "--enable-all", "--quiet"])
+        # a near-miss that mypy itself rejects (`dict(d, d)`: too many arguments) is not "code with the static types it
+        # declares": such functions are left out (the hand-written idioms are all kept)
+        import subprocess
+
+        mp = subprocess.run([core.PY, "-m", "mypy", "cases.py", "--no-error-summary", "--hide-error-context", "--no-color-output", "--cache-dir", str(d / ".mc")],
+                            cwd=d, capture_output=True, text=True, env=core.py_env())
+        ill_lines = {int(m.group(1)) for m in re.finditer(r"^cases\.py:(\d+): error:", mp.stdout, re.M)}
     texts = [x["text"] for x in diags if "text" in x]
     if texts:
         res.violate("refurb could not lint the idiom module", {"kind": "lint-error"}, {"errors": texts[:5]})
@@ -423,7 +542,12 @@ def run(ctx) -> None:
     for case in cases:
         mine = [x for x in diags if case["first"] <= x["line"] <= case["last"]]
         own = [x for x in mine if x["code"] == case["code"]]
-        if not own:
+        if case["nm"] and any(case["first"] <= l <= case["last"] for l in ill_lines):
+            res.bump("near_miss_ill_typed_skipped")
+            continue
+        if case["nm"]:
+            res.bump("near_miss_diagnosed" if mine else "near_miss_silent")
+        if not own and not case["nm"]:
             res.notes.append(f"idiom {case['i']} (FURB{case['code']}: {case['body'].splitlines()[0]}) is not diagnosed by its check")
             res.bump("idiom_not_diagnosed")
         pools = [POOLS[a] if a in POOLS else foreign[a] for _, a in case["params"]]
@@ -473,17 +597,18 @@ def run(ctx) -> None:
                     {"kind": "behaviour", "code": code, "idiom": case["body"], "differs": what, "witness": witness_class(args, bool(case["opts"].get("alias")), ra, rb)},
                     {"function": func_src, "rewritten": new_func, "message": dg["msg"], "arguments": [rewrite.canon(x) for x in args], "original": ra, "rewritten_result": rb, "how": how},
                 )
+    c01_stmt.run(ctx, covered_codes)  # statement-level / schematic advice: hand-written rewrites tied to the message
     rule_correspondence(ctx)
     for k, n in sorted(unapplied.items()):
         res.notes.append(f"not applied x{n}: {k}")
     res.bump("checks_with_executed_rewrite", len(covered_codes))
     res.sample({"function": "def case_3(p: int, q: int, r: int):\n    return p == q or p == r", "pools": "int x int x int", "compared": "value+type, raised-or-not, argument state, stdout"})
     all_codes = sorted(rows)
-    res.not_proved += [f"FURB{c}: no executable idiom in the sweep" for c in all_codes if c not in covered_codes]
+    res.not_proved += [f"FURB{c}: " + c01_stmt.NOT_EXECUTED.get(c, "no executable idiom in the sweep") for c in all_codes if c not in covered_codes]
     res.assumptions += [
         "operands are function parameters bound to plain values: side-effect free and never raising, as the property presupposes",
         "exceptions are compared as raised-or-not (the property's wording), values with their type",
-        "documented caveats (116 negative numbers, 179 iterator result, 147/106/120 disabled-by-default with stated reasons) are excluded as the property says; the table checks the sentence is still in the docstring",
+        "documented caveats (116 negative numbers, 179 iterator result, 106 tabs after text, 147/151/166/189 'not a drop-in replacement' notes, 176 naive -> aware datetimes on purpose) are excluded as the property says; the table checks the sentence is still in the docstring",
     ]
 
 
